@@ -384,6 +384,12 @@ class BuiltinMixin:
         f = z3.Function("path_join", core.StrS, core.StrS, core.StrS)
         t = self.as_str(args[0])
         for a in args[1:]:
+            if a.k == "py" and isinstance(a.r, tuple) and a.r and a.r[0] == "starred":
+                seq = a.r[1]
+                la = self.as_addr(seq)
+                g = z3.Function("path_join_all", core.StrS, z3.ArraySort(core.IntS, Val), core.IntS, core.StrS)
+                t = g(t, z3.Select(self.heap.cur["lelem"], la), self.hread("llen", (la,)))
+                continue
             t = f(t, self.as_str(a))
         return TV("str", t)
 
@@ -476,7 +482,20 @@ class BuiltinMixin:
         return tv
 
     def m_str_rsplit(self, recv, args, kw, n):
-        raise Unsupported("rsplit")
+        """s.rsplit(sep, 1): [head, tail] with s == head + sep + tail and sep not in tail,
+        or [s] when sep does not occur"""
+        s = self.as_str(recv)
+        sep = self.as_str(args[0])
+        mx = z3.simplify(self.as_int(args[1])) if len(args) > 1 else None
+        if mx is None or not (z3.is_int_value(mx) and mx.as_long() == 1):
+            raise Unsupported("rsplit other than rsplit(sep, 1)")
+        if self.decide(z3.Contains(s, sep), f"rsplit@{getattr(n, 'lineno', '?')}"):
+            head = z3.Function("rsplit_head", core.StrS, core.StrS, core.StrS)(s, sep)
+            tail = z3.Function("rsplit_tail", core.StrS, core.StrS, core.StrS)(s, sep)
+            self.assume(s == z3.Concat(head, sep, tail))
+            self.assume(z3.Not(z3.Contains(tail, sep)))
+            return self.new_list([TV("str", head), TV("str", tail)])
+        return self.new_list([TV("str", s)])
 
     def bi_map(self, args, kw, n, frame):
         return py(("map", args[0], args[1]), "iter")
